@@ -213,6 +213,8 @@ class FormattedValue(ExpressionPrinter):
         self.printer.append(str(Str(node.s, self.allowed_quotes, self.pep701)), TokenTypes.NonNumberLiteral)
 
     def visit_Bytes(self, node):
+        if self.printer.previous_token in [TokenTypes.Identifier, TokenTypes.Keyword, TokenTypes.SoftKeyword]:
+            self.printer.delimiter(' ')
         self.printer.append(str(Bytes(node.s, self.allowed_quotes)), TokenTypes.NonNumberLiteral)
 
     def visit_JoinedStr(self, node):
